@@ -244,7 +244,7 @@ PrefetchEndG(l2) ==
     /\ pc' = [pc EXCEPT ![runner] = "ret"]
     /\ BgResumeOK(l2, BgResumes(prio > 0))
     /\ lst' = l2
-    /\ bg' = IF BgResumes(prio > 0) THEN "stalled" ELSE bg
+    /\ bg' = IF BgResumes(prio > 0) /\ Missing(BgFiles) # {} THEN "stalled" ELSE bg   \* nothing missing: it just runs to its end
     /\ UNCHANGED <<sc, runner, pfres, psize, pinfo, wc, bc, brunner, bgres, prio, fetched, reg>>
     /\ last' = [act |-> "PrefetchEnd", p |-> runner, res |-> pfres, req |-> {}]
 PrefetchEnd == PrefetchEndG(IF BgResumes(prio > 0) THEN BgLocal ELSE lst)
@@ -342,7 +342,7 @@ PrioEndG(l2) ==
     /\ prio' = 0
     /\ BgResumeOK(l2, BgResumes(PfPrio))
     /\ lst' = l2
-    /\ bg' = IF BgResumes(PfPrio) THEN "stalled" ELSE bg
+    /\ bg' = IF BgResumes(PfPrio) /\ Missing(BgFiles) # {} THEN "stalled" ELSE bg
     /\ UNCHANGED <<sc, pc, runner, pf, pfres, psize, pinfo, waiter, wc, bc, brunner, bgres, fetched, reg>>
     /\ last' = [act |-> "PrioEnd", req |-> {}]
 PrioEnd == PrioEndG(IF BgResumes(PfPrio) THEN BgLocal ELSE lst)
@@ -374,7 +374,9 @@ ReadPartG(f, k, ok, got, l2, rq) ==
     /\ ~Held /\ reg = "on" /\ ok
     /\ f \in ToSet(sc.pt) /\ k \in 1..2
     /\ got \subseteq GotMax({f})
-    /\ l2[f] = PartState(lst, f)[f] /\ Monotone(l2, {f})
+    \* (a background fetch under way may complete the file from the blob cache at the same time)
+    /\ IF bg \in {"stalled", "suspended"} THEN l2[f] \in PartState(lst, f)[f]..2 ELSE l2[f] = PartState(lst, f)[f]
+    /\ Monotone(l2, {f})
     /\ fetched' = fetched \cup got
     /\ lst' = l2
     /\ last' = [act |-> "ReadPart", f |-> f, k |-> k, ok |-> ok, req |-> rq]
